@@ -101,7 +101,7 @@ func runC03(c *vk.Ctx) {
 		var estErr, est2Err error
 		rec0, _ := vk.Guard(func() {
 			if exactIn {
-				r1, e := q.EstimateSwapExactAmountIn(ctx, pmquery.EstimateSwapExactAmountInRequest{TokenIn: sdk.NewCoin(din, amount).String(), Routes: []poolmanagertypes.SwapAmountInRoute{{PoolId: w.poolID, TokenOutDenom: dout}}})
+				r1, e := q.EstimateSwapExactAmountIn(qctx(ctx), pmquery.EstimateSwapExactAmountInRequest{TokenIn: sdk.NewCoin(din, amount).String(), Routes: []poolmanagertypes.SwapAmountInRoute{{PoolId: w.poolID, TokenOutDenom: dout}}})
 				estErr = e
 				if e == nil {
 					est = r1.TokenOutAmount
@@ -113,7 +113,7 @@ func runC03(c *vk.Ctx) {
 					est2 = cn.Amount
 				}
 			} else {
-				r1, e := q.EstimateSwapExactAmountOut(ctx, pmquery.EstimateSwapExactAmountOutRequest{TokenOut: sdk.NewCoin(dout, amount).String(), Routes: []poolmanagertypes.SwapAmountOutRoute{{PoolId: w.poolID, TokenInDenom: din}}})
+				r1, e := q.EstimateSwapExactAmountOut(qctx(ctx), pmquery.EstimateSwapExactAmountOutRequest{TokenOut: sdk.NewCoin(dout, amount).String(), Routes: []poolmanagertypes.SwapAmountOutRoute{{PoolId: w.poolID, TokenInDenom: din}}})
 				estErr = e
 				if e == nil {
 					est = r1.TokenInAmount
@@ -138,7 +138,7 @@ func runC03(c *vk.Ctx) {
 			var piErr error
 			imp := sdkmath.LegacyNewDecWithPrec(1+w.r.I64n(60), 2)
 			recP, _ := vk.Guard(func() {
-				pi, piErr = q.EstimateTradeBasedOnPriceImpact(ctx, pmquery.EstimateTradeBasedOnPriceImpactRequest{FromCoin: sdk.NewCoin(din, amount), ToCoinDenom: dout, PoolId: w.poolID, MaxPriceImpact: imp, ExternalPrice: sdkmath.LegacyZeroDec()})
+				pi, piErr = q.EstimateTradeBasedOnPriceImpact(qctx(ctx), pmquery.EstimateTradeBasedOnPriceImpactRequest{FromCoin: sdk.NewCoin(din, amount), ToCoinDenom: dout, PoolId: w.poolID, MaxPriceImpact: imp, ExternalPrice: sdkmath.LegacyZeroDec()})
 			})
 			if recP == nil && piErr == nil && pi != nil && pi.InputCoin.Amount.IsPositive() {
 				var plain sdk.Coin
